@@ -49,11 +49,16 @@ TRUSTED = [
 ASSUMPTIONS = ['N >= 1 (Database refuses an empty table)', 'cpu_count() >= 1', 'per-row Hessians are symmetric (hypothesis of C04.hessian_sum)']
 RULE = (
     'table (1-40 rows, shuffled index labels) x formula family {col, quad, logit, expmix} x weight {none, column, expression} x thread counts '
-    '{1,2,3,N-1,N,N+1,2N,0} x 2 permutations x one 2-4 way split; panel tables (1-12 individuals, blocks of individuals); non-trivial = >= 2 rows and (T >= 2 or non-identity permutation or split)'
+    '{1,2,3,N-1,N,N+1,2N,0} x 2 permutations x one 2-4 way split; panel tables (1-12 individuals, blocks of individuals); sequences simulate / likelihood / estimate(with and without bootstrap) / likelihood / simulate on one object; non-trivial = >= 2 rows and (T >= 2 or non-identity permutation or split)'
 )
 
 WHERE_RETHREAD = 'simulate after number_of_threads was changed (engine thread state shared with the likelihood)'
-MATCHERS = {'rethread': lambda case: isinstance(case, dict) and 'rethread' in case}
+WHERE_BOOT = 'likelihood / simulate after estimate(run_bootstrap=True) on the same object (engine keeps the last bootstrap sample)'
+WHERE_SEQ = 'sequence of simulate / calculate_likelihood / estimate on one BIOGEME object'
+MATCHERS = {
+    'rethread': lambda case: isinstance(case, dict) and 'rethread' in case,
+    'after_bootstrap': lambda case: isinstance(case, dict) and str(case.get('step', '')).startswith('after-bootstrap'),
+}
 
 NAME_POOL = ['b10', 'b2', 'alpha', 'zeta', 'B_TIME', 'asc', 'Zb', 'a', 'beta_9', 'beta_10']
 COLS = ['L', 'X', 'Y', 'Z', 'W', 'CH']
@@ -574,6 +579,89 @@ def check_rethread(res, case, T0, T1):
     return bad
 
 
+# ----------------------------------------------------------------------------- sequences on one object
+
+SEQ_TOML = TOML.replace('save_iterations = "False"', 'save_iterations = "False"\nbootstrap_samples = {B}') + '[Output]\ngenerate_html = "False"\ngenerate_pickle = "False"\n'
+
+
+def gen_seq_case(rng, bootstrap):
+    N = rng.randint(3, 12)
+    return {'table': gen_table(rng, N), 'b0': rng.randint(-8, 8) / 8.0, 'weight': rng.choice([None, 'W']), 'np_seed': rng.randint(1, 10**6),
+            'samples': rng.choice([2, 3]), 'threads': rng.choice([1, 2, 3, 0]), 'bootstrap': bootstrap}
+
+
+def run_sequence(case):
+    import biogeme.biogeme as bio
+    import biogeme.database as db
+    from biogeme.expressions import Beta, Variable
+
+    np.random.seed(case['np_seed'])
+    out = []
+    with core.scratch(SEQ_TOML.format(T=5, B=case['samples'])):
+        d = db.Database('t', make_df(case['table']))
+        b = Beta('b', 0.0, None, None, 0)
+        ll = Variable('L') - (b - Variable('X')) * (b - Variable('X'))
+        formulas = {'log_like': ll}
+        if case['weight']:
+            formulas['weight'] = Variable('W') + 0.25
+        B = bio.BIOGEME(d, formulas, number_of_threads=case['threads'])
+        B.modelName = 'seq'
+        x = [case['b0']]
+
+        def sim(step):
+            s_ = B.simulate({'b': case['b0']})
+            out.append({'step': step, 'l': [float(v) for v in s_['log_like'].values], 'w': [float(v) for v in s_['weight'].values] if case['weight'] else None})
+
+        def like(step):
+            r = B.calculate_likelihood_and_derivatives(x, scaled=False, hessian=True, bhhh=False)
+            out.append({'step': step, 'L': float(B.calculate_likelihood(x, scaled=False)), 'Ls': float(B.calculate_likelihood(x, scaled=True)),
+                        'f': float(r.function), 'g': float(r.gradient[0])})
+
+        pre = 'after-bootstrap:' if case['bootstrap'] else 'after-estimate:'
+        sim('simulate-first')
+        like('likelihood-after-simulate')
+        sim('simulate-after-likelihood')
+        B.estimate(run_bootstrap=bool(case['bootstrap']))
+        like(pre + 'likelihood')
+        sim(pre + 'simulate')
+        like(pre + 'likelihood-after-simulate')
+    return out
+
+
+def check_sequence(ctx, res, case):
+    desc0 = dict(case)
+    iso_f.note(dict(desc0, step='sequence'), WHERE_SEQ)
+    try:
+        steps = run_sequence(case)
+    except Exception as e:  # noqa: BLE001
+        res.violate(f'a sequence of simulate / likelihood / estimate on one object raises {type(e).__name__}: {str(e)[:150]}', dict(desc0, step='sequence'), core.exc_kind(e), 'values', where=WHERE_SEQ)
+        return
+    res.count({'sequence': desc0}, nontrivial=True)
+    res.tally('sequence:bootstrap' if case['bootstrap'] else 'sequence:estimate')
+    cols = case['table']['cols']
+    N = len(cols['L'])
+    b0 = case['b0']
+    # straight from the table (all values dyadic: exact)
+    exp_l = [cols['L'][i] - (b0 - cols['X'][i]) ** 2 for i in range(N)]
+    exp_w = [cols['W'][i] + 0.25 for i in range(N)] if case['weight'] else None
+    exp_L = wsum(exp_w, exp_l)
+    exp_g = math.fsum((1.0 if exp_w is None else exp_w[i]) * (-2.0 * (b0 - cols['X'][i])) for i in range(N))
+    tol = tol_for(exp_l if exp_w is None else [a * c for a, c in zip(exp_w, exp_l)], N)
+    for st in steps:
+        desc = dict(desc0, step=st['step'])
+        where = WHERE_BOOT if st['step'].startswith('after-bootstrap') else WHERE_SEQ
+        if 'L' in st:
+            if not abs(st['L'] - exp_L) <= tol or not abs(st['f'] - exp_L) <= tol:
+                res.violate(f'log likelihood ({st["step"]}) = sum over the observations of the data set of weight x per-observation value', desc, [st['L'], st['f']], exp_L, where=where)
+            elif not core.close(st['Ls'], st['L'] / N, rel=1e-15):
+                res.violate(f'scaled log likelihood ({st["step"]}) = log likelihood / sample size', desc, st['Ls'], st['L'] / N, where=where)
+            elif not abs(st['g'] - exp_g) <= 1e-9 * N * max(1.0, abs(exp_g)):
+                res.violate(f'gradient ({st["step"]}) = weighted sum of the per-observation gradients', desc, st['g'], exp_g, where=where)
+        else:
+            if not bits_equal(st['l'], exp_l) or (exp_w is not None and not bits_equal(st['w'], exp_w)):
+                res.violate(f'simulate ({st["step"]}) reports, row by row, the per-observation values of the data set', desc, {'l': st['l'], 'w': st['w']}, {'l': exp_l, 'w': exp_w}, where=where)
+
+
 # ----------------------------------------------------------------------------- panel data: blocks of individuals
 
 
@@ -680,6 +768,9 @@ def check_impl(ctx) -> Result:
         check_rethread(res, case, T0, T1)
     for _ in range(ctx.n(12, 300)):
         check_panel_threads(ctx, res, rng)
+    # one object used for several calls in a row, with an estimation in between (F-C04-2: with bootstrap)
+    for i in range(ctx.n(6, 120)):
+        check_sequence(ctx, res, gen_seq_case(rng, bootstrap=i % 2 == 0))
     n_cases = ctx.n(100, 1600)
     for i in range(n_cases):
         adversarial = i % 3 == 0
@@ -693,7 +784,7 @@ def check_impl(ctx) -> Result:
         res.tally(f'formula={case["formula"]}')
         res.tally(f'weight={case["weight"]}')
         res.tally('N=1' if N == 1 else 'N=2-5' if N <= 5 else 'N=6-16' if N <= 16 else 'N=17-40')
-        if len([v for v in res.violations if v.get('where') != WHERE_RETHREAD]) > 5:
+        if len([v for v in res.violations if v.get('where') not in (WHERE_RETHREAD, WHERE_BOOT)]) > 5:
             break
     ctx.batch.flush()
     return res
@@ -725,6 +816,13 @@ def search(ctx, res, broken):
 def replay_impl(ctx, obj):
     case = obj.get('case') or {}
     out = {'replayed': obj.get('what')}
+    if 'np_seed' in case:
+        r = Result()
+        check_sequence(None, r, {k: v for k, v in case.items() if k != 'step'})
+        if case.get('step') and case['step'] != 'sequence':
+            r.violations = [v for v in r.violations if v['case'].get('step') == case['step']]
+        out.update({'property_fails': bool(r.violations), 'violations': r.violations[:3]})
+        return out
     if 'rethread' in case:
         r = Result()
         bad = check_rethread(r, case, *case['rethread'])
